@@ -30,7 +30,7 @@ ASSUMPTIONS = [
     "the first point may be counted as k=0 or k=1: first emitted index accepted in [20, 2^16]; the draw log must show the start requested from exactly [20, 2^16)",
     "grid-level comparison skips reference points within 1e-9 of a cell mid-point",
 ]
-REQUIRED_COUNTERS = {"halton_prime_power_indices": 200, "lifecycle_draws": 60, "lifecycle_pickle_roundtrips": 8, "lifecycle_reseed_same_seed": 5, "lifecycle_space_changes": 5, "lifecycle_moves_to_more_dimensions": 8, "lifecycle_draws_above_1024": 3, "cursor_placed_near_boundary": 6, "halton_points": 1500, "prime_tables": 20, "sampler_objects": 40, "split_sequences": 40, "rseq_points": 400, "start_draws_logged": 40}
+REQUIRED_COUNTERS = {"halton_prime_power_indices": 200, "lifecycle_draws": 40, "lifecycle_pickle_roundtrips": 8, "lifecycle_reseed_same_seed": 5, "lifecycle_space_changes": 5, "lifecycle_moves_to_more_dimensions": 8, "lifecycle_draws_above_1024": 3, "cursor_placed_near_boundary": 6, "halton_points": 1500, "prime_tables": 20, "sampler_objects": 40, "split_sequences": 40, "rseq_points": 400, "start_draws_logged": 40}
 SHARDS = {"quick": 8, "thorough": 16}
 
 
